@@ -1470,7 +1470,7 @@ def parse_tstates(writer, text, index, *cwd):
         registers, state, config = _read_sim_state(writer)
         memory = writer.snapshot.copy()
         if len(memory) == 0x20000:
-            tracer = PagingTracer(memory, memory.o7ffd, state['fffd'], state['ay'])
+            tracer = PagingTracer(memory, memory.o7ffd, state['fffd'], state['ay'][:])
         else:
             tracer = None
         simulator = from_memory(simulator_cls, memory, registers, state, config)
